@@ -252,6 +252,14 @@ fn check_config_leak(ctx: &mut Ctx, c0: &ConfigLeak) -> Res {
         // a panic message goes to stderr: it is emitted too
         Err(p) => emitted.push(p),
     }
+    // what an embedding program may print about the key objects built from this seed
+    if let Ok(strings) = no_unwind(|| {
+        let ltk = roughenough::key::LongTermKey::new(&c.seed.0);
+        let signer = roughenough::sign::MsgSigner::from_seed(&c.seed.0);
+        vec![format!("{}", ltk), format!("{}", signer), format!("{:?}", signer)]
+    }) {
+        emitted.extend(strings);
+    }
     let logs = take_logs();
     for rec in logs.iter().chain(emitted.iter()) {
         ctx.eval();
